@@ -591,7 +591,7 @@ func ZZ_C44_StaticType_Derived() {
 	size := zzNondetInt64()
 	zzAssume(size >= 0)
 	var t StaticType
-	switch zzChoice(7) {
+	switch zzChoice(10) {
 	case 0:
 		t = NewOptionalStaticType(nil, p)
 	case 1:
@@ -604,6 +604,18 @@ func ZZ_C44_StaticType_Derived() {
 		t = NewReferenceStaticType(nil, UnauthorizedAccess, p)
 	case 5:
 		t = NewCapabilityStaticType(nil, p)
+	case 6:
+		t = NewReferenceStaticType(nil, InaccessibleAccess, p)
+	case 7:
+		// intersection type with a legacy (restricted) type
+		it := NewIntersectionStaticType(nil, []*InterfaceStaticType{NewInterfaceStaticTypeComputeTypeID(nil, common.StringLocation("x"), "I")})
+		it.LegacyType = p
+		t = it
+	case 8:
+		t = NewIntersectionStaticType(nil, []*InterfaceStaticType{
+			NewInterfaceStaticTypeComputeTypeID(nil, common.StringLocation("x"), "I"),
+			NewInterfaceStaticTypeComputeTypeID(nil, common.StringLocation("x"), "J"),
+		})
 	default:
 		t = NewOptionalStaticType(nil, NewVariableSizedStaticType(nil, p))
 	}
